@@ -135,7 +135,8 @@ class ConformalElectionModel(BaseElectionModel.BaseElectionModel, ABC):
         upper_bound = (1 + alpha) / 2
         lower_bound = (1 - alpha) / 2
 
-        train_rows = math.floor(self.n_train * conf_frac)
+        # at the minimum number of reporting units the fraction is so small that the floor would be zero
+        train_rows = max(math.floor(self.n_train * conf_frac), 1)
         train_data = reporting_units_shuffled[:train_rows]
 
         # the fixed effects in train_data will be a subset of the fixed effect of reporting_units since all
